@@ -100,7 +100,7 @@ function nameCases(ctx) {
     out.push({ cls: 'slot-value-name', detail: { name: n }, files: [['p', `<c><d slot:${n}>{{ ${/^[A-Za-z_$][\w$]*$/.test(n) && !['if', 'new', 'var', 'class'].includes(n) ? n : 'x'} }}</d><e slot:${n}="v" slot:z>{{v}}{{z}}</e></c>`]] })
   }
   // data field names that are JS keywords or runtime letters
-  for (const n of ['if', 'var', 'new', 'delete', 'in', 'class', 'function', 'R', 'C', 'D', 'U', 'K', 'A', 'X', 'Y', 'Z', 'P', 'Q', '__proto__', 'constructor', 'prototype', '$', '_']) {
+  for (const n of ['if', 'var', 'new', 'delete', 'in', 'class', 'function', 'R', 'C', 'D', 'U', 'K', 'A', 'X', 'Y', 'Z', 'P', 'Q', '__proto__', 'constructor', 'prototype', '$', '_', 'a$b', '$1', 'm²', 'x½', 'Ⓐ', 'ª', 'ⅷ', 'é', '漢', 'a\u200cb']) {
     out.push({ cls: 'field-name', detail: { name: n }, files: [['p', `<a v="{{ ${n} }}" w="{{ x.${n} }}" u="{{ {${n}: 1, ...o} }}" t="{{ {${n}} }}">{{ ${n} ? ${n} : 0 }}</a><b wx:if="{{ ${n} }}"/><template is="t" data="{{ ${n} }}"/>`]] })
   }
   // extra runtime script and scripts with awkward bodies (valid JS)
